@@ -101,7 +101,7 @@ AUG_SMILES = (
 
 
 DEC_FEATURES = ("novel", "multi_index", "ring1", "branch1", "organic", "charged_h", "stereo", "big_ring", "nested", "compat")
-SMI_THEMES = ("mixed", "kekulize", "stereo", "molgen", "kekulize", "mixed", "decode")
+SMI_THEMES = ("mixed", "kekulize", "stereo", "molgen", "kekulize", "mixed", "decode", "fragments")
 
 
 def _chunk(rng, feat, novel, pairs):
@@ -192,18 +192,21 @@ def corpus(rng, b=0):
         smi = rng.sample(AUG_SMILES, 5) + rng.sample(SMILES_CONC[:10], 3)
     elif theme == "stereo":
         smi = [x for x in SMILES_CONC if "@" in x or "/" in x or "%" in x] + [rng.choice(AUG_SMILES)]
+    elif theme == "fragments":     # every input has several '.'-separated fragments
+        parts = ("CC", "O", "N", "[Na+]", "[Cl-]", "CCO", "c1ccccc1", "C1CC1", "C[Si]CF", "CC(N)C", "[O-]C", "F", "C=O", "C#N")
+        smi = [".".join(rng.choice(parts) for _ in range(rng.randint(2, 5))) for _ in range(8)]
     elif theme == "molgen":
         smi = [rng.choice(AUG_SMILES), rng.choice(SMILES_CONC)]
     else:
         smi = rng.sample(SMILES_CONC, 6) + [rng.choice(AUG_SMILES)]
     data = gen.dataset_smiles()
-    if data:
+    if data and theme != "fragments":
         smi += rng.sample(data, 3 if theme != "mixed" else 8)      # real molecules: long strings, many features
-    for _ in range(8 if theme == "molgen" else 3):
+    for _ in range(8 if theme == "molgen" else (0 if theme == "fragments" else 3)):
         K = [gen.DEFAULT]
         m = stubs.gen_mol(rng, K, rng.choice((6, 10, 14))) if rng.random() < 0.6 else stubs.gen_aromatic_mol(rng, K)
         smi.append(m.smiles(rng))
-    p_dec = {"kekulize": 0.15, "decode": 1.0}.get(theme, rng.choice((0.3, 0.5, 0.6, 0.9)))
+    p_dec = {"kekulize": 0.15, "decode": 1.0, "fragments": 0.15}.get(theme, rng.choice((0.3, 0.5, 0.6, 0.9)))
     deep = (b % 40 == 5) if procs.TIER == "quick" else (b % 8 == 5)
     medium = (b % 24 == 6) if procs.TIER == "quick" else (b % 8 == 6)
     if medium:
@@ -246,6 +249,8 @@ def gen_spec(base_seed, i, W):
     theme = info["smiles_theme"]
     rng = random.Random("%d:schedsim:run:%d" % (base_seed, i))
     n = rng.choice((2, 2, 2, 3, 3, 4) if procs.TIER == "quick" else (2, 2, 3, 3, 4, 5, 6))
+    if theme == "fragments":
+        n = rng.choice((3, 3, 4))
     shared_first = rng.random() < 0.5     # several threads start with the very same call
     first = None
     threads = []
